@@ -647,3 +647,45 @@ Proof.
   exists [0; 2]. split; [vm_compute; reflexivity|].
   apply run_fixpoint. intros [|[|[|i]]]; try (vm_compute; reflexivity). destruct i; vm_compute; reflexivity.
 Qed.
+
+(* ================================================================================================ *)
+(* M. the close latch: test and set in one critical section                                          *)
+(* ================================================================================================ *)
+Definition mrun (t : mpc) : list unit := match t with MRun => [tt] | _ => [] end.
+Definition MInv (s : msh * list mpc) : Prop :=
+  Forall (fun t => t <> MLock) (snd s) /\
+  m_runs (fst s) + length (flat_map mrun (snd s)) + (if m_closed (fst s) then 0 else 1) = 1.
+
+Lemma minv_step s i : MInv s -> MInv (sys_step _ _ (mstep true) s i).
+Proof.
+  destruct s as [sh ls]. unfold MInv, sys_step. cbn [fst snd]. intros [Hok Hc].
+  destruct (nth_error ls i) as [x|] eqn:En; [|cbn [fst snd]; auto].
+  assert (Hx : x <> MLock) by (exact (Forall_nth _ ls i x Hok En)).
+  destruct (fm_upd2 mrun ls i x En) as (a & b & Ha & Hupd).
+  rewrite Ha in Hc. rewrite !app_length in Hc. destruct sh as [cl lk rn]. cbn [m_closed m_lock m_runs] in *.
+  destruct x; cbn [mstep m_closed m_lock m_runs]; try congruence.
+  - destruct lk; cbn [fst snd]; [rewrite (upd_nth_same ls i _ En); split; [exact Hok|rewrite Ha, !app_length; exact Hc]|].
+    destruct cl; cbn [fst snd m_closed m_lock m_runs].
+    + split; [apply Forall_upd; [exact Hok|discriminate]|]. rewrite Hupd, !app_length. cbn [mrun length] in *. lia.
+    + split; [apply Forall_upd; [exact Hok|discriminate]|]. rewrite Hupd, !app_length. cbn [mrun length] in *. lia.
+  - cbn [fst snd m_closed m_lock m_runs]. split; [apply Forall_upd; [exact Hok|discriminate]|].
+    rewrite Hupd, !app_length. cbn [mrun length] in *. lia.
+  - cbn [fst snd m_closed m_lock m_runs]. split; [apply Forall_upd; [exact Hok|discriminate]|].
+    rewrite Hupd, !app_length. cbn [mrun length] in *. lia.
+  - cbn [fst snd]. rewrite (upd_nth_same ls i _ En). split; [exact Hok|rewrite Ha, !app_length; exact Hc].
+Qed.
+
+(* ANY number of closers entering Close at any instants, ANY schedule: the handlers run at most once *)
+Theorem latch_runs_at_most_once k sched : m_runs (fst (run _ _ (mstep true) (minit, repeat MCheck k) sched)) <= 1.
+Proof.
+  assert (HI : MInv (run _ _ (mstep true) (minit, repeat MCheck k) sched)).
+  { apply inv_all_schedules; [intros s0 i; apply minv_step|]. split; cbn [fst snd minit m_closed m_runs].
+    - apply Forall_forall. intros t Ht. apply repeat_spec in Ht. subst t. discriminate.
+    - assert (E : flat_map mrun (repeat MCheck k) = []) by (induction k; cbn; auto). rewrite E. reflexivity. }
+  destruct HI as [_ H]. destruct (m_closed _); lia.
+Qed.
+
+(* check-then-act: two closers both pass the IsClosed test before either sets the flag: the handlers run twice *)
+Lemma latch_check_then_act_refuted :
+  exists sched, m_runs (fst (run _ _ (mstep false) (minit, [MCheck; MCheck]) sched)) = 2.
+Proof. exists [0; 1; 0; 0; 0; 1; 1; 1]. vm_compute. reflexivity. Qed.
